@@ -77,6 +77,23 @@ theorem T06_gate_derived_views_current (T : Table) (hT : T.fresh = true) (F : Fn
   intro f hf
   exact coh_eq_construct hT hnew (sub_mem hv hf)
 
+/-- **Kept slots (the `trainable` flag).**  For every producer and every pair (i, j) the table
+    SPECIFIES as carried over (controlled_by with any number of controls, on_qubits,
+    Circuit.on_qubits, Circuit.invert: a non-trainable gate yields a non-trainable gate), after any
+    history the current value of slot `j` of the returned gate IS the current value of slot `i` of
+    the source, and every live copy of that slot in the returned gate holds it. -/
+theorem T06_gate_keeps_slot (T : Table) (hT : T.fresh = true) (F : Fn V) (ops : List (Op V))
+    (e : Entry V) (he : e ∈ run T F ops) (P : Producer) (hP : P ∈ (T.cls e.cls).producers)
+    (i j : Nat) (hk : (i, j) ∈ P.keeps) :
+    produceCur F P e.cur j = e.cur i ∧
+    ∀ g ∈ (T.cls P.out).live, g.slot = j → produceObj F P e.obj g = some (e.cur i) := by
+  have hok := (okParts (fresh_cls hT e.cls)).producers P hP
+  have h1 : produceCur F P e.cur j = e.cur i := produceCur_keeps hok F e.cur hk
+  refine ⟨h1, fun g hg hgj => ?_⟩
+  have hc := coh_call hT F (run_coh hT F ops e he) hP 0 g hg
+  simp only at hc
+  rw [hc, hgj, h1]
+
 /-- **Isolation (deep copies included).**  Updating object `k` after any history leaves every
     other object — in particular the deep copies of `k` and the objects `k` was copied from —
     with the same class, the same current values and the same content of every view. -/
@@ -149,7 +166,7 @@ def prxRow (daggerReadsAttr : Bool) : Cls :=
          ⟨attr 0 0, [attr 0 0], 0⟩, ⟨attr 1 1, [attr 1 1], 0⟩]
       else
         [⟨par 0, [par 0], 0⟩, ⟨par 1, [par 1], 0⟩, ⟨kw 0, [par 0], 0⟩, ⟨kw 1, [par 1], 0⟩,
-         ⟨attr 0 0, [par 0], 0⟩, ⟨attr 1 1, [par 1], 0⟩]⟩]
+         ⟨attr 0 0, [par 0], 0⟩, ⟨attr 1 1, [par 1], 0⟩], [], []⟩]
     copied := [par 0, par 1, kw 0, kw 1, attr 0 0, attr 1 1]
     shared := [] }
 
@@ -241,7 +258,8 @@ def invRow (invertSetsKwarg : Bool) : Cls :=
     views := [⟨"matrix", [par 0]⟩, ⟨"trainable_gates", [trn 1]⟩, ⟨"decompose", [kw 0, kwTrn 1]⟩]
     producers := [⟨"circuit_invert", 0,
       [⟨par 0, [par 0], 0⟩, ⟨kw 0, [par 0], 0⟩, ⟨trn 1, [trn 1], 0⟩,
-       ⟨kwTrn 1, if invertSetsKwarg then [trn 1] else [], 0⟩]⟩]
+       ⟨kwTrn 1, if invertSetsKwarg then [trn 1] else [], 0⟩],
+      if invertSetsKwarg then [trn 1, kwTrn 1] else [trn 1], [(1, 1)]⟩]
     copied := [par 0, kw 0, trn 1, kwTrn 1]
     shared := [] }
 
@@ -260,13 +278,51 @@ theorem T06_gate_invert_flag_conclusion_fails :
             observe m (construct (Table.cls [invRow false] P.out) (produceCur FS P e.cur)))))))
       = some [[true, true, false]] := by decide
 
+/-- the single-control fall-back `RX.controlled_by(q)` → `CRX` (slot 1 = the flag).
+    `passesKwargs = false`: the CRX is built from `theta=self.parameters[0]` only, so the flag of
+    the result is the constructor default whatever the source's flag. -/
+def rxCtrlTable (passesKwargs : Bool) : Table :=
+  [{ name := "RX", fields := [par 0, kw 0, trn 1, kwTrn 1], live := [par 0, kw 0, trn 1, kwTrn 1],
+     setters := [⟨"gate.parameters", [0], [par 0, kw 0]⟩],
+     views := [⟨"matrix", [par 0]⟩, ⟨"trainable_gates", [trn 1]⟩],
+     producers := [⟨"controlled_by1", 1,
+       if passesKwargs then
+         [⟨par 0, [kw 0], 0⟩, ⟨kw 0, [kw 0], 0⟩, ⟨trn 1, [kwTrn 1], 0⟩, ⟨kwTrn 1, [kwTrn 1], 0⟩]
+       else
+         [⟨par 0, [par 0], 0⟩, ⟨kw 0, [par 0], 0⟩, ⟨trn 1, [], 0⟩, ⟨kwTrn 1, [], 0⟩],
+       if passesKwargs then [par 0, kw 0, trn 1, kwTrn 1] else [par 0, kw 0], [(1, 1)]⟩],
+     copied := [par 0, kw 0, trn 1, kwTrn 1], shared := [] },
+   { name := "CRX", fields := [par 0, kw 0, trn 1, kwTrn 1], live := [par 0, kw 0, trn 1, kwTrn 1],
+     setters := [⟨"gate.parameters", [0], [par 0, kw 0]⟩],
+     views := [⟨"matrix", [par 0]⟩, ⟨"trainable_gates", [trn 1]⟩, ⟨"raw", [kw 0, kwTrn 1]⟩],
+     producers := [], copied := [par 0, kw 0, trn 1, kwTrn 1], shared := [] }]
+
+example : Table.fresh (rxCtrlTable true) = true := by decide
+
+/-- a coherent result is not enough: the flag must come from the source. -/
+theorem T06_gate_ctrl_drops_flag_not_fresh : Table.fresh (rxCtrlTable false) = false := by decide
+
+/-- construct (flag `[0, 1]`), then `controlled_by(q)`: `trainable_gates` of the returned CRX sees
+    the producer's constant instead of the source's flag (conclusion of `T06_gate_keeps_slot`). -/
+theorem T06_gate_ctrl_drops_flag_conclusion_fails :
+    ((run (rxCtrlTable false) FS [.construct 0 vInit])[0]?.map (fun e =>
+      (Table.cls (rxCtrlTable false) e.cls).producers.map (fun P =>
+        decide (produceObj FS P e.obj (trn 1) = some (e.cur 1)))))
+      = some [false] := by decide
+
+example :
+    ((run (rxCtrlTable true) FS [.construct 0 vInit])[0]?.map (fun e =>
+      (Table.cls (rxCtrlTable true) e.cls).producers.map (fun P =>
+        decide (produceObj FS P e.obj (trn 1) = some (e.cur 1)))))
+      = some [true] := by decide
+
 /-- a two-row table with a producer into another class (`RX.controlled_by(q)` returns a `CRX`
     built from `init_kwargs`) is fresh: the hypotheses are satisfiable across classes. -/
 example : Table.fresh
     [{ name := "RX", fields := [par 0, kw 0], live := [par 0, kw 0],
        setters := [⟨"gate.parameters", [0], [par 0, kw 0]⟩],
        views := [⟨"matrix", [par 0]⟩],
-       producers := [⟨"controlled_by", 1, [⟨par 0, [kw 0], 0⟩, ⟨kw 0, [kw 0], 0⟩]⟩],
+       producers := [⟨"controlled_by", 1, [⟨par 0, [kw 0], 0⟩, ⟨kw 0, [kw 0], 0⟩], [par 0, kw 0], []⟩],
        copied := [par 0, kw 0], shared := [] },
      { name := "CRX", fields := [par 0, kw 0], live := [par 0, kw 0],
        setters := [⟨"gate.parameters", [0], [par 0, kw 0]⟩],
